@@ -153,6 +153,11 @@ def run_parallel(mir, outp, jobs, scenario="in_range"):
         parts.append((lo, min(hi, top - 1 if scenario == "in_range" else top), "pos"))
         if hi >= 1:
             parts.append((max(lo, 1), min(hi, top), "neg"))
+    max_mag = int(sys.argv[sys.argv.index("--max-mag") + 1]) if "--max-mag" in sys.argv else None
+    if max_mag is not None:
+        parts = [(lo, min(hi, max_mag - 1), sg) for lo, hi, sg in parts if lo < max_mag]
+    # the expensive parts (large magnitudes) first, so that the pool stays busy
+    parts.sort(key=lambda p: -p[0])
     tmpd = os.path.join(os.path.dirname(outp) if outp else "/tmp", "mirsym_parts")
     os.makedirs(tmpd, exist_ok=True)
 
@@ -171,8 +176,9 @@ def run_parallel(mir, outp, jobs, scenario="in_range"):
     with ThreadPoolExecutor(max_workers=jobs) as ex:
         rs = list(ex.map(one, parts))
     agg = {"scenario": scenario, "parts": len(rs),
-           "domain": "n: every %s; partitioned into %d magnitude intervals x sign, their union is the whole domain" % (
-               "i64 nanosecond count" if scenario == "in_range" else "chrono duration (+-i64::MAX ms, as an exact nanosecond count)", len(cuts) - 1),
+           "domain": "n: every %s%s; partitioned into %d magnitude intervals x sign, their union is the whole domain" % (
+               "i64 nanosecond count" if scenario == "in_range" else "chrono duration (+-i64::MAX ms, as an exact nanosecond count)",
+               (" with |n| < %d" % max_mag) if max_mag is not None else "", len(parts)),
            "functions_encoded": sorted({f for r in rs for f in r["functions_encoded"]}),
            "paths": sum(r["paths"] for r in rs), "paths_proved": sum(r["paths_proved"] for r in rs),
            "queries": sum(r["queries"] for r in rs), "assert_obligations": sum(r["assert_obligations"] for r in rs),
